@@ -27,11 +27,15 @@
 #include <pthread.h>
 
 /* ---- ghost lock state (havocked by xv_lk_ghost_havoc() at the start of every harness) */
-_Bool xv_lk_held;                 /* this thread holds THE lock of the unit                        */
-long xv_lk_acq, xv_lk_rel;        /* number of acquisitions / releases made by this thread         */
-long xv_lk_init;                  /* pthread_mutex_init calls                                      */
+/* (ghost variables of one group live in one struct: one assigns target and one addressed object per group instead of
+ * one per variable -- the cost of DFCC's frame checks grows with both; the names below are macros onto the fields) */
+struct { _Bool held; long acq, rel, init; } xv_LK;
+#define xv_lk_held xv_LK.held     /* this thread holds THE lock of the unit                        */
+#define xv_lk_acq xv_LK.acq       /* number of acquisitions / releases made by this thread         */
+#define xv_lk_rel xv_LK.rel
+#define xv_lk_init xv_LK.init     /* pthread_mutex_init calls                                      */
 #define XV_LK_CNT_OK (xv_lk_acq >= 0 && xv_lk_acq < (1L << 40) && xv_lk_rel >= 0 && xv_lk_rel < (1L << 40) && xv_lk_init >= 0 && xv_lk_init < (1L << 40))
-#define XV_LK_ASSIGNS xv_lk_held, xv_lk_acq, xv_lk_rel
+#define XV_LK_ASSIGNS xv_LK
 
 /* hooks, defined at the end of this file, one set per protected state */
 static pthread_mutex_t *xv_lk_the_mutex(void);
@@ -79,10 +83,11 @@ void ut_mutex_unlock(pthread_mutex_t *m) { int rc = pthread_mutex_unlock(m); if 
 /* protected state: `next_id` of libxcm/tp/common/xcm_tp.c, protected by `next_id_lock`.
  * INVARIANT: next_id >= 0.  ASSUMED in addition at every acquire: next_id < INT64_MAX (fewer than 2^63 socket ids have
  * been handed out in the life of the process -- a resource bound, not a property of the code). */
-int64_t xv_id_shadow;     /* next_id as the last release (of any thread) left it                  */
-int64_t xv_id_seen;       /* next_id as THIS critical section found it                            */
-int64_t xv_id_pub;        /* next_id as THIS critical section published it                        */
-#define XV_ID_ASSIGNS next_id, xv_id_shadow, xv_id_seen, xv_id_pub
+struct { int64_t shadow, seen, pub; } xv_ID;
+#define xv_id_shadow xv_ID.shadow   /* next_id as the last release (of any thread) left it                  */
+#define xv_id_seen xv_ID.seen       /* next_id as THIS critical section found it                            */
+#define xv_id_pub xv_ID.pub         /* next_id as THIS critical section published it                        */
+#define XV_ID_ASSIGNS next_id, xv_ID
 static inline void xv_lk_ghost_havoc(void)
 {
     xv_lk_held = nondet_bool(); xv_lk_acq = nondet_long(); xv_lk_rel = nondet_long(); xv_lk_init = nondet_long();
@@ -148,8 +153,16 @@ void ut_fatal(void) { abort(); }
 /* ghost record of credential data handed out (C18 "loaded from data read between two equal hashes"): the results of the
  * successful loads (ut_load_text_file, ut_strdup) made since the last EVP_DigestFinal_ex; at each EVP_DigestFinal_ex the
  * record moves to xv_ldb_* ("between the last two digests") and starts again */
-long xv_ld_since_md; const char *xv_ld_res[4];
-long xv_ld_between; const char *xv_ldb_res[4];
+struct { long ld_calls; const char *ld_res[4]; } xv_LD;
+#define xv_ld_calls xv_LD.ld_calls        /* number of ut_load_text_file calls */
+#define xv_ld_res xv_LD.ld_res
+struct { long md_calls; uint8_t md_last[32], md_prev[32]; long ld_since_md, ld_between; const char *ldb_res[4]; } xv_MD;
+#define xv_md_calls xv_MD.md_calls        /* EVP_DigestFinal_ex calls */
+#define xv_md_last xv_MD.md_last          /* output of the last EVP_DigestFinal_ex */
+#define xv_md_prev xv_MD.md_prev          /* output of the one before */
+#define xv_ld_since_md xv_MD.ld_since_md
+#define xv_ld_between xv_MD.ld_between
+#define xv_ldb_res xv_MD.ldb_res
 static inline void xv_ld_record(const char *p) { if (xv_ld_since_md >= 0 && xv_ld_since_md < 4) xv_ld_res[xv_ld_since_md] = p; xv_ld_since_md++; }
 /* heap strings of this unit are short (bound XV_STR_MAX of the unit, an obligation in the stubs): a block of EXACTLY len+1
  * bytes is allocated by case distinction, so that every object has a constant size (objects of symbolic size made the
@@ -178,49 +191,50 @@ char *ut_strdup(const char *str)
 }
 
 /* ---- logging helpers that ctx_store.c runs UNCONDITIONALLY (the LOG_TLS_CTX_* macros format into local buffers before
- * log_debug_sock() tests log_is_enabled()).  TRUSTED(libxcm/tp/tls/log_tls.c, common/util.c ut_aprintf): they write a
- * NUL-terminated string of arbitrary content inside the buffer they are given; the text is not modelled.
- * snprintf goes through prelude.h's macro to xv_snprintf (env/libc_fmt.h); ut_aprintf is variadic, the unit header
- * routes it to xv_aprintf(buf, capacity) the same way. */
-/* TRUSTED(libc) snprintf, reached through prelude.h's macro: own model instead of env/libc_fmt.h, whose havoc of a slice of
- * SYMBOLIC length made the formula of ctx_store_get_ctx explode (the 1 KiB log buffers): here the whole buffer (constant
- * size at every call site) becomes arbitrary and is NUL-terminated where the formatted text would end */
-int xv_snprintf_ret; size_t xv_snprintf_cap; int xv_snprintf_calls;
+ * log_debug_sock() tests log_is_enabled()): snprintf (through prelude.h's macro xv_snprintf), hash_description,
+ * log_tls_get_error_stack, ut_aprintf (variadic: the unit header routes it to xv_aprintf(buf, capacity)).
+ * Text written into a log buffer is never read by code under proof (only by these very stubs): what matters is that the
+ * buffer can take it.  Model: the whole range [s, s+size) must be writable (obligation); one byte at an ARBITRARY position
+ * becomes arbitrary and a NUL is stored at another arbitrary position (so every byte may change; proved for each position).
+ * (__CPROVER_havoc_slice with a non-literal size made cbmc crash while building counterexample traces, and with a symbolic
+ * size it made the formula explode.) */
+static void xv_text_any(char *s, size_t size)
+{
+    __CPROVER_assert(size >= 1 && __CPROVER_w_ok(s, size), "log text: destination buffer writable over its whole capacity");
+    size_t k = nondet_size_t(), z = nondet_size_t();
+    __CPROVER_assume(k < size && z < size);
+    s[k] = (char)nondet_uchar();
+    s[z] = '\0';
+}
+/* TRUSTED(libc) snprintf, reached through prelude.h's macro (own model instead of env/libc_fmt.h, see above) */
+struct { int ret; size_t cap; int calls; } xv_SNP;
+#define xv_snprintf_ret xv_SNP.ret
+#define xv_snprintf_cap xv_SNP.cap
+#define xv_snprintf_calls xv_SNP.calls
 int xv_snprintf(char *s, size_t size)
 {
     int r = nondet_int();
     __CPROVER_assume(r >= 0 && r <= 4096);
     xv_snprintf_ret = r; xv_snprintf_cap = size; xv_snprintf_calls++;
-    if (size > 0) {
-        __CPROVER_havoc_slice(s, size);
-        s[(size_t)r < size ? (size_t)r : size - 1] = '\0';
-    }
+    if (size > 0)
+        xv_text_any(s, size);
     return r;
 }
+/* TRUSTED(libxcm/tp/tls/log_tls.c:14-20): "xx:" per hash byte, the last ':' replaced by NUL: 3 * hash_len bytes */
 void hash_description(uint8_t *hash, size_t hash_len, char *buf)
 {
     __CPROVER_assert(hash_len >= 1 && __CPROVER_r_ok(hash, hash_len), "hash_description: hash readable");
-    __CPROVER_havoc_slice(buf, hash_len * 3);     /* "xx:" per byte, the last ':' replaced by NUL (log_tls.c:14-20) */
-    buf[hash_len * 3 - 1] = '\0';
+    xv_text_any(buf, hash_len * 3);
 }
-void log_tls_get_error_stack(char *buf, size_t capacity)
-{
-    __CPROVER_assert(capacity >= 1, "log_tls_get_error_stack: capacity");
-    __CPROVER_havoc_slice(buf, capacity);
-    buf[capacity - 1] = '\0';
-}
-void xv_aprintf(char *buf, size_t capacity)
-{
-    __CPROVER_assert(capacity >= 1, "ut_aprintf: capacity");
-    __CPROVER_havoc_slice(buf, capacity);
-    buf[capacity - 1] = '\0';
-}
+/* TRUSTED(libxcm/tp/tls/log_tls.c:22-29) */
+void log_tls_get_error_stack(char *buf, size_t capacity) { xv_text_any(buf, capacity); }
+/* TRUSTED(common/util.c:150-175 ut_aprintf): appends inside [buf, buf+capacity) */
+void xv_aprintf(char *buf, size_t capacity) { xv_text_any(buf, capacity); }
 
 /* ---- TRUSTED(common/util.c:337-390 load_file/ut_load_text_file over fopen/fread/ferror/fclose): the whole file as a
  * NUL-terminated heap string, or -1 with the errno fopen(3)/fread(3) left; on fopen failure *data is NOT written, on a
  * read error it is NULL.  Files longer than XV_FILE_MAX are not explored. */
 #define XV_FILE_MAX (XV_STR_MAX - 1)
-long xv_ld_calls;        /* ghost: number of ut_load_text_file calls */
 ssize_t ut_load_text_file(const char *filename, char **data)
 {
     __CPROVER_assert(__CPROVER_r_ok(filename, 1), "ut_load_text_file: filename readable");
@@ -244,6 +258,15 @@ ssize_t ut_load_text_file(const char *filename, char **data)
     return (ssize_t)n + 1;
 }
 
+#define XV_DG_MAX 96
+#define XV_DG_CHUNK 8
+struct { uint8_t dg_log[XV_DG_MAX]; size_t dg_len; long dg_updates, stat_calls, lstat_calls; } xv_DG;
+#define xv_dg_log xv_DG.dg_log            /* digest input so far (since the last EVP_DigestInit_ex) */
+#define xv_dg_len xv_DG.dg_len
+#define xv_dg_updates xv_DG.dg_updates
+#define xv_stat_calls xv_DG.stat_calls
+#define xv_lstat_calls xv_DG.lstat_calls
+
 /* ---- TRUSTED(kernel) stat/lstat: fail with a documented errno or fill the buffer with arbitrary metadata */
 int xv_stat_any(struct stat *st)
 {
@@ -256,7 +279,6 @@ int xv_stat_any(struct stat *st)
     __CPROVER_havoc_slice(st, sizeof(*st));
     return 0;
 }
-long xv_stat_calls, xv_lstat_calls;
 int stat(const char *path, struct stat *st) { __CPROVER_assert(__CPROVER_r_ok(path, 1), "stat: path readable"); xv_stat_calls++; return xv_stat_any(st); }
 int lstat(const char *path, struct stat *st) { __CPROVER_assert(__CPROVER_r_ok(path, 1), "lstat: path readable"); xv_lstat_calls++; return xv_stat_any(st); }
 
@@ -265,15 +287,8 @@ int lstat(const char *path, struct stat *st) { __CPROVER_assert(__CPROVER_r_ok(p
  * from the (xv_md_settle)-th EVP_DigestFinal_ex on it repeats the previous output ("the files stopped changing":
  * this bounds the retry loop of ctx_store_get_ctx; jobs that rely on it are `bounded:`).
  * EVP_MD_CTX_new never fails (OOM excluded by design, as for ut_malloc). */
-#define XV_DG_MAX 96
-#define XV_DG_CHUNK 8
-uint8_t xv_dg_log[XV_DG_MAX]; size_t xv_dg_len;     /* digest input so far (since the last EVP_DigestInit_ex) */
-long xv_dg_updates;
 long xv_mdctx_live;
-long xv_md_calls;          /* EVP_DigestFinal_ex calls */
-long xv_md_settle;         /* outputs repeat from this call number on */
-uint8_t xv_md_last[32];    /* output of the last EVP_DigestFinal_ex */
-uint8_t xv_md_prev[32];    /* output of the one before */
+long xv_md_settle;         /* outputs repeat from this EVP_DigestFinal_ex call number on (NEVER assigned after the harness set it) */
 static char xv_sha256_obj;
 const EVP_MD *EVP_sha256(void) { return (const EVP_MD *)&xv_sha256_obj; }
 EVP_MD_CTX *EVP_MD_CTX_new(void) { char *p = malloc(1); __CPROVER_assume(p != NULL); xv_mdctx_live++; return (EVP_MD_CTX *)p; }
@@ -316,9 +331,12 @@ int EVP_DigestFinal_ex(EVP_MD_CTX *ctx, unsigned char *md, unsigned int *s)
 
 /* ---- SSL_CTX objects: opaque one-byte heap objects; SSL_CTX_free is COUNTED (not free()d: the contexts of entries that
  * a contract's requires clause creates are not in any frees clause) and the context is remembered as dead */
-long xv_ctx_live;                 /* SSL_CTX_new - SSL_CTX_free */
-long xv_ctxfree_calls; const SSL_CTX *xv_ctxfree_last;
-const SSL_CTX *xv_ctx_dead;       /* a context freed since the harness started (NULL: none) */
+struct { long ctx_live, ctxfree_calls; const SSL_CTX *ctxfree_last, *ctx_dead; } xv_CX;
+#define xv_ctx_live xv_CX.ctx_live            /* SSL_CTX_new - SSL_CTX_free */
+#define xv_ctxfree_calls xv_CX.ctxfree_calls
+#define xv_ctxfree_last xv_CX.ctxfree_last
+#define xv_ctx_dead xv_CX.ctx_dead            /* a context freed since the harness started (NULL: none) */
+#define XV_CX_ASSIGNS xv_CX
 SSL_CTX *xv_ctx_any(void) { char *p = malloc(1); __CPROVER_assume(p != NULL); return (SSL_CTX *)p; }
 void SSL_CTX_free(SSL_CTX *ctx)
 {
@@ -327,8 +345,21 @@ void SSL_CTX_free(SSL_CTX *ctx)
     xv_ctxfree_calls++; xv_ctxfree_last = ctx; xv_ctx_live--; xv_ctx_dead = ctx;
 }
 
+/* ---- ghost: OpenSSL objects handed out and not yet given back (C08 leak oracle of load_ssl_ctx and its install_* helpers) */
+struct { long x509_live, crl_live, pkey_live, bio_live; } xv_OS;
+#define xv_x509_live xv_OS.x509_live
+#define xv_crl_live xv_OS.crl_live
+#define xv_pkey_live xv_OS.pkey_live
+#define xv_bio_live xv_OS.bio_live
+
 /* ---- ghost: arguments and moment of the load_ssl_ctx call (recorded by its contract where it is a cut point) */
-long xv_lsc_calls; const char *xv_lsc_cert, *xv_lsc_key, *xv_lsc_tc, *xv_lsc_crl; long xv_lsc_at_md;
+struct { long calls; const char *cert, *key, *tc, *crl; long at_md; } xv_LSC;
+#define xv_lsc_calls xv_LSC.calls
+#define xv_lsc_cert xv_LSC.cert
+#define xv_lsc_key xv_LSC.key
+#define xv_lsc_tc xv_LSC.tc
+#define xv_lsc_crl xv_LSC.crl
+#define xv_lsc_at_md xv_LSC.at_md
 
 /* ---- ghost: what this thread owns, snapshots of the list at acquire / at release */
 #define XV_CS_MAX 2
@@ -336,11 +367,12 @@ SSL_CTX *xv_my_ctx; int xv_my_refs;   /* this thread holds xv_my_refs references
 int xv_my_refs_after;                 /* ... and at least this many after the critical section (set by the harness)          */
 size_t xv_hj;                         /* arbitrary hash byte index 0..31 -- NEVER assigned                                   */
 struct xv_snap { unsigned n; struct cache_entry *e[3]; int cnt[3]; SSL_CTX *ctx[3]; uint8_t hj[3]; };
-struct xv_snap xv_acq;                /* the list as this critical section FOUND it                                          */
-struct xv_snap xv_pub;                /* the list as this critical section PUBLISHED it                                      */
-struct cache_entry *xv_cs_shadow;     /* cache.entries.lh_first as the last release (of any thread) left it                  */
+struct { struct xv_snap acq, pub; struct cache_entry *shadow; } xv_SN;
+#define xv_acq xv_SN.acq              /* the list as this critical section FOUND it                                          */
+#define xv_pub xv_SN.pub              /* the list as this critical section PUBLISHED it                                      */
+#define xv_cs_shadow xv_SN.shadow     /* cache.entries.lh_first as the last release (of any thread) left it                  */
 struct cache *xv_cachep;              /* == &cache (the helpers' parameter `cache` shadows the global in their contracts)     */
-#define XV_CS_ASSIGNS xv_acq, xv_pub, xv_cs_shadow, cache.entries.lh_first
+#define XV_CS_ASSIGNS xv_SN, cache.entries.lh_first
 
 struct cache_entry *nondet_entryp(void);
 struct cache_entry **nondet_entrypp(void);
@@ -359,6 +391,7 @@ static inline void xv_lk_ghost_havoc(void)
     xv_ld_since_md = nondet_long(); xv_ld_between = nondet_long();
     xv_ld_res[0] = xv_ld_res[1] = xv_ld_res[2] = xv_ld_res[3] = NULL; xv_ldb_res[0] = xv_ldb_res[1] = xv_ldb_res[2] = xv_ldb_res[3] = NULL;
     xv_lsc_calls = nondet_long(); xv_lsc_cert = xv_lsc_key = xv_lsc_tc = xv_lsc_crl = NULL; xv_lsc_at_md = nondet_long();
+    xv_x509_live = nondet_long(); xv_crl_live = nondet_long(); xv_pkey_live = nondet_long(); xv_bio_live = nondet_long();
     xv_snprintf_ret = nondet_int(); xv_snprintf_cap = nondet_size_t(); xv_snprintf_calls = nondet_int();
     xv_heap_live = nondet_long(); xv_ld_calls = nondet_long(); xv_stat_calls = nondet_long(); xv_lstat_calls = nondet_long();
     xv_dg_len = nondet_size_t(); xv_dg_updates = nondet_long(); xv_mdctx_live = nondet_long();
